@@ -282,4 +282,43 @@ PROPS = {    "C01": {
                    "F13a/F13b/F13c/F13e (and F13d: ReadGenesisConfigFromFile returns (nil,nil) on a missing amount)",
         "assumptions": ["SHA3 / ABI packing / LevelDB are not modelled: genesis hash equality is observed on the real code"],
     },
+    "C15": {
+        "module": "ZenonVerif.Props.C15",
+        "streams": [S("p2p", 2500, 60000, timeout=3000),
+                    S("frame", 3000, 300000, driver=False), S("disc", 3000, 300000, driver=False)],
+        "rule": "p2p stream: one peer session per message against a real ProtocolManager over the mock node's ChainBridge "
+                "(chain of 530 momentums): 12 handshake variants, the boundary grid of the three request handlers "
+                "(numbers 0/1/2/H-512..H+2/2^63/2^64-512..2^64-1 x amounts 0/1/2/511/512/513/2^63/2^64-1, known/unknown/zero hashes, "
+                "GetBlocks lists of 0..2000 held/unknown hashes), then random well-formed requests (50%), wrong-shape RLP, truncated, "
+                "garbage, huge length prefixes, declared sizes around 10 MiB, unknown codes, two real 10 MiB payloads; "
+                "distinct = distinct (message class, observed reply) lines; every line is one real session replayed through the model. "
+                "frame / disc streams (monitors only, no model): rlpxFrameRW.ReadMsg on 1-3 valid frames with a bit flipped in "
+                "header / header MAC / body / frame MAC, truncated, re-ordered, replayed, with a byte inserted, or garbage; "
+                "discover.decodePacket on signed ping/pong/findnode/neighbors packets with a bit flipped in hash / signature / data, "
+                "truncated, extended, garbage, and re-hashed corrupted bodies",
+        "partial": "proved: reply caps, totality and size gate of the handler MODEL (two clauses only under premises — F7a/F7b, found "
+                   "again by the monitor on the real handler). Not proved, checked by differential run only: survival on every byte "
+                   "string (RLP library, downloader/fetcher goroutines), allocation inside rlp, liveness of the message loop; "
+                   "rlpx frame MAC/size and discovery packet checks have no model/theorem (T4 frame_reject not built): they are "
+                   "exercised by the monitor-only streams frame and disc",
+        "assumptions": ["go-ethereum rlp decodes as specified (the stream classifies each payload with the same decoder the handler uses)",
+                        "the chain is abstracted to its height; hashes are identified with the height of the momentum that carries them"],
+        "trusted_base": ["p2p.MsgPipe session harness (probe message delimits the node's answer)"],
+    },
+    "C16": {
+        "module": "ZenonVerif.Props.C16",
+        "streams": [S("sync-batches", 220, 6000, timeout=3000)],
+        "rule": "sync-batches stream: a mock producer builds a trunk of 78 momentums with user sends/receives and 7 side branches "
+                "(fork 1..36 below the tip); followers receive batches through the real chainBridge.InsertChain after an RLP round "
+                "trip: directed sweep fork depth {1,2,3,5,10,17,29,30,31,32,35} x tail {shorter,equal,+1,+3}; 10 corruption kinds x "
+                "{first,last,middle} x {extension with known prefix, side chain}; non-linking second elements; random: extensions, "
+                "overlaps, duplicates, gaps, empty, forks with/without known prefix, fabricated heads. n counts test batches (the clean "
+                "batches that position a follower are extra lines, also replayed); distinct = distinct lines",
+        "partial": "momentum + account-block verification is an oracle (`valid`) of the model — C03/C05 own it; the stream supplies it as "
+                   "'bytes are the producer's own' and the monitor checks the node only ever holds such bytes. Downloader/fetcher "
+                   "queueing and peer dropping are not modelled. insert_total only under premises (F7c); the rollback happens before "
+                   "verification (F7d, negative witness)",
+        "assumptions": ["full verification of one delivered momentum on the state it extends is an oracle valid : DM -> Bool plus the link test",
+                        "hashes are collision-free on the inputs that arise (8-byte prefixes identify momentums in the line protocol)"],
+    },
 }
